@@ -8,8 +8,9 @@ from .. import aoef, aoefgen, aoef_impl
 PROPERTY = "C01"
 LEAN_MODULE = "Proofs.C01"
 _T = "SE.Proofs.C01."
-THEOREMS = []   # filled in below (kept in one place so that a theorem that disappears is an audit failure)
-_THEOREM_NAMES = []
+_THEOREM_NAMES = ["C01_roundtrip_general", "C01_save_total", "C01_roundtrip", "C01_roundtrip_dir", "C01_relocate",
+                  "C01_fixpoint", "C01_fixpoint_dir", "C01_same_type_save", "C01_same_type_load", "C01_same_type",
+                  "C01_type_dispatch", "C01_wf_of_wfB", "C01_wfB_iff"]
 THEOREMS = [_T + n for n in _THEOREM_NAMES]
 LEVEL_TEXT = ("Lean theorems over an executable model of all 26 AOEF adapter modules (data classes, document classes, "
               "save = first-wins tables over the post-order traversal, single-pass loader with lenient / strict "
@@ -41,7 +42,7 @@ NOT_COMPARED = ["order of the top-level definition lists of a document and the n
                 "absent vs empty optional lists in the document (representation, not content)",
                 "AOEFObject.created_on / version of the file wrapper", "error messages"]
 
-HAVE_DISPATCH_THEOREM = False     # set when Proofs/C01.lean provides C01_type_dispatch
+HAVE_DISPATCH_THEOREM = True     # set when Proofs/C01.lean provides C01_type_dispatch
 _DISPATCH_OBLIGATION = (
     "example : SE.Aoef.MostSpecificFirst adapterOrder adapterSub = true := by decide\n"
     "example : ∀ c ∈ adapterOrder, SE.Aoef.firstMatch adapterOrder adapterSub c = some c :=\n"
